@@ -128,6 +128,23 @@ pub fn residual_identity<T: Sc>(
         c: s,
         d: coeff.iter().map(|v| v.f()).collect(),
     };
+    if pw.all_finite() == false && y64.all_finite() && c64.all_finite() {
+        // The basis is not finite at the reported α. Residuals computed *for that α* cannot
+        // be finite in a row where a non-finite basis value meets a non-zero coefficient.
+        for col in 0..s {
+            for i in 0..n {
+                let hit = (0..m).any(|j| !pw.at(i, j).is_finite() && c64.at(j, col) != 0.0);
+                if hit && resid[col * n + i].f().is_finite() {
+                    return Err(format!(
+                        "residual[{}] = {:e} is finite although the weighted basis matrix at the reported parameters is not finite in row {i}: the residuals were not computed for the reported parameters",
+                        col * n + i,
+                        resid[col * n + i].f()
+                    ));
+                }
+            }
+        }
+        return Ok(false);
+    }
     if !pw.all_finite() || !y64.all_finite() || !c64.all_finite() {
         return Ok(false);
     }
